@@ -27,7 +27,7 @@ func tagExtendsParser(doc *Parser, start *Token, arguments *Parser) (INodeTag, *
 		parentFilename := doc.template.set.resolveFilename(doc.template, filenameToken.Val)
 
 		// Parse the parent
-		parentTemplate, err := doc.template.set.FromFile(parentFilename)
+		parentTemplate, err := doc.template.set.fromFileFor(doc.template, filenameToken.Val)
 		if err != nil {
 			return nil, err.(*Error)
 		}
